@@ -1320,7 +1320,8 @@ def remove_at(prog, path):
 # the check
 
 # finding id -> (model flag that decides class membership on the program, witness file)
-KNOWN_CLASS = {"F4": (M_DRAINLEFT, "F4_witness.cases"), "F5": (M_PREPHELD, "F5_witness.cases"), "F7": (7, "F7_witness.cases")}
+KNOWN_CLASS = {"F4": (M_DRAINLEFT, "F4_witness.cases"), "F5": (M_PREPHELD, "F5_witness.cases"), "F7": (7, "F7_witness.cases"),
+               "F8": (None, "F8_witness.cases")}     # F8: decided by refcycle_actors() on the program text, see classes_of
 
 # theorems pinned per property (coq/Props/<prop>.v)
 PINS = {
@@ -1396,10 +1397,108 @@ def load_corpus():
     return cases
 
 
+def refcycle_actors(prog):
+    """F8 (PendingTermRefCycle), decided on the PROGRAM text: actors on a cycle of `state of A stores a reference to B`
+    (a `store h` act in a method / Prep step / Ret / Fwd / notifier handler of A) and `the notifier of B targets A`
+    edges that contains at least one stored reference.  Handles are static, so both relations are static."""
+    hact, ntgt, stores = {}, {}, []
+
+    def clo(c, ctx):
+        acts(c[5], ctx)
+
+    def acts(al, ctx):
+        for a in al:
+            k = a[0]
+            if k in ("defer", "deferd", "lazy", "idle"):
+                clo(a[1], None)
+            elif k in ("tadd", "tmac"):
+                clo(a[4], None)
+            elif k == "after":
+                clo(a[3], None)
+            elif k in ("actor", "slabadd"):
+                hact[a[1]] = a[2]
+                if k == "slabadd" and ctx is not None:
+                    stores.append((ctx, ("actor", a[2])))       # the slab of the running actor owns the child
+                if a[3] is not None:
+                    ntgt[a[2]] = a[3][0]
+                    clo(a[3][1], ("h", a[3][0]))
+            elif k == "call":
+                clo(a[2], ("h", a[1]))
+            elif k == "callprep":
+                clo(a[3], ("h", a[1]))
+            elif k in ("owned", "clone", "anon"):
+                if a[1] in hact:
+                    hact[a[2]] = hact[a[1]]
+            elif k == "store" and ctx is not None:
+                stores.append((ctx, ("h", a[1])))
+            elif k == "newret":
+                rk = a[3]
+                if rk[0] == "clos":
+                    acts(rk[2], None)
+                else:
+                    clo(rk[2], ("h", rk[1]))
+            elif k == "newfwd":
+                fk = a[3]
+                if fk[0] == "clos":
+                    acts(fk[1], None)
+                else:
+                    clo(fk[2], ("h", fk[1]))
+            elif k == "newtok":
+                for c in a[3]:
+                    clo(c, None)
+            elif k == "rep":
+                acts(a[2], ctx)
+
+    for o in prog:
+        if o[0] == "do":
+            acts(o[1], None)
+
+    def res(x):
+        return x[1] if x[0] == "actor" else hact.get(x[1])
+
+    edges = {}
+    for ctx, tgt in stores:
+        a, b = res(ctx), res(tgt)
+        if a is not None and b is not None:
+            edges.setdefault(a, set()).add((b, True))
+    for b, hp in ntgt.items():
+        a = hact.get(hp)
+        if a is not None:
+            edges.setdefault(b, set()).add((a, False))
+    on_cycle = set()
+    for start in list(edges):
+        # DFS from start along edges; a cycle back to start through at least one stored reference
+        stack, seen = [(start, False)], set()
+        while stack:
+            node, st = stack.pop()
+            for nxt, is_store in edges.get(node, ()):
+                st2 = st or is_store
+                if nxt == start and st2:
+                    on_cycle.add(start)
+                if (nxt, st2) not in seen:
+                    seen.add((nxt, st2))
+                    stack.append((nxt, st2))
+    return on_cycle
+
+
 def classes_of(r):
-    """Known-finding classes the PROGRAM belongs to (decided by the model on the program)."""
+    """Known-finding classes the PROGRAM belongs to (decided by the model on the program; F8 by a predicate on the
+    program text plus: some actor of the cycle is never notified in the real run)."""
     fl = model_flags((r["model"] or {}).get("lines", []))
-    return set(fid for fid, (flag, _) in KNOWN_CLASS.items() if flag in fl)
+    cls = set(fid for fid, (flag, _) in KNOWN_CLASS.items() if flag is not None and flag in fl)
+    try:
+        cyc = refcycle_actors(r.get("prog") or [])
+    except Exception:
+        cyc = set()
+    if cyc:
+        notified = set()
+        for l in ((r.get("real") or {}).get("lines", []) if isinstance(r.get("real"), dict) else []):
+            ws = l.split()
+            if len(ws) >= 2 and ws[0] == "notify":
+                notified.add(int(ws[1]))
+        if cyc - notified:
+            cls.add("F8")
+    return cls
 
 
 def findings_for(prop):
